@@ -73,7 +73,9 @@ int main (void)
         int padded = atoi (strtok_r (NULL, " \n", &sv)); size_t total = strtoul (strtok_r (NULL, " \n", &sv), NULL, 10);
         int nullterm = atoi (strtok_r (NULL, " \n", &sv)); int n = atoi (strtok_r (NULL, " \n", &sv));
         StunInputVector *v = calloc (n + 1, sizeof *v);
-        for (int i = 0; i < n; i++) { size_t l; v[i].buffer = hc_unhex_tight (strtok_r (NULL, " \n", &sv), &l); v[i].size = l; }
+        for (int i = 0; i < n; i++) { size_t l; char *tk = strtok_r (NULL, " \n", &sv);
+          if (!strcmp (tk, "~")) { v[i].buffer = NULL; v[i].size = 0; continue; }      /* a {NULL, 0} placeholder entry of a counted vector */
+          v[i].buffer = hc_unhex_tight (tk, &l); v[i].size = l; }
         P (" vf=%zd", stun_message_validate_buffer_length_fast (v, nullterm ? -1 : n, total, padded));
       } else if (!strcmp (op, "VL")) {
         int padded = atoi (strtok_r (NULL, " \n", &sv)); size_t l; uint8_t *b = hc_unhex_tight (strtok_r (NULL, " \n", &sv), &l);
